@@ -311,8 +311,8 @@ class Obs:
             self._sync()
         self.ops.append(op)
         self.impl.append(self.state_line())
-        self.events.append({"ev": "op", "op": op, "t": self.last_ms, "live": self.live_loops(), "steps_running": self.steps_running,
-                            "lock": self.lock_holder, **info})
+        self.events.append({"ev": "op", "op": op, "idx": len(self.ops) - 1, "t": self.last_ms, "live": self.live_loops(),
+                            "steps_running": self.steps_running, "lock": self.lock_holder, **info})
 
     # ---- gates
     async def gate(self, role: tuple, kind: str) -> None:
@@ -606,6 +606,9 @@ def observe_store(store: Any, obs: Obs) -> None:
             res = await cls.query(self, q)
             if o.enabled and not o.depth and getattr(q, "run_id_in", None) == [o.run_id]:
                 role = o.role()
+                if o.yielding and role[0] in ("s", "t"):
+                    # a store whose calls suspend hands out snapshots, not MemoryWorkflowStore's live record objects
+                    res = [h.model_copy() for h in res]
                 if role[0] == "s" and o.spc.get(role[1]) == "query":
                     o.spc[role[1]] = "log"
                     o.emit(f"squery|{role[1]}")
@@ -724,6 +727,30 @@ def wire(obs: Obs, st: Stack) -> None:
 # --------------------------------------------------------------------------
 
 
+def _fast_db_path(case: dict) -> str | None:
+    """SQLite files on a memory-backed directory when there is one (every store call opens a connection and commits)"""
+    import os
+    import tempfile
+
+    if case.get("store") != "sqlite":
+        return None
+    d = "/dev/shm" if os.path.isdir("/dev/shm") and os.access("/dev/shm", os.W_OK) else None
+    fd, p = tempfile.mkstemp(prefix="verif_wf_", suffix=".db", dir=d)
+    os.close(fd)
+    os.unlink(p)
+    return p
+
+
+def _group(plan: list[dict]) -> list[tuple[float, list[int]]]:
+    out: list[tuple[float, list[int]]] = []
+    for p in plan:
+        if out and out[-1][0] == p["at"]:
+            out[-1][1].append(p["n"])
+        else:
+            out.append((p["at"], [p["n"]]))
+    return out
+
+
 def run_case(case: dict, horizon: float | None = None) -> dict:
     """run one case on the real stack; returns ops / impl lines, events, outcome"""
     global _OBS
@@ -737,7 +764,7 @@ def run_case(case: dict, horizon: float | None = None) -> dict:
     out: dict[str, Any] = {}
 
     async def main(loop: VLoop) -> None:
-        st = Stack.build(case.get("store", "memory"), idle_timeout=tau)
+        st = Stack.build(case.get("store", "memory"), idle_timeout=tau, db_path=_fast_db_path(case))
         obs.stack = st
         observe_store(st.store, obs)
         wire(obs, st)
@@ -750,15 +777,16 @@ def run_case(case: dict, horizon: float | None = None) -> dict:
         assert obs.run_id == hd.run_id
         obs.events.append({"ev": "started", "t": obs.now_ms()})
 
-        async def sender(p: dict) -> None:
-            await asyncio.sleep(p["at"])
-            try:
-                await st.send(obs.handler_id, Ext(n=p["n"]))
-                obs.events.append({"ev": "send_accepted", "n": p["n"], "t": obs.now_ms(), "active": st.active(obs.run_id)})
-            except Exception as e:
-                obs.events.append({"ev": "send_rejected", "n": p["n"], "t": obs.now_ms(), "error": f"{type(e).__name__}: {e}"})
+        async def sender(at: float, ns: list[int]) -> None:
+            await asyncio.sleep(at)
+            for n in ns:  # equal send times: plan order (timer ties would otherwise decide)
+                try:
+                    await st.send(obs.handler_id, Ext(n=n))
+                    obs.events.append({"ev": "send_accepted", "n": n, "t": obs.now_ms(), "active": st.active(obs.run_id)})
+                except Exception as e:
+                    obs.events.append({"ev": "send_rejected", "n": n, "t": obs.now_ms(), "error": f"{type(e).__name__}: {e}"})
 
-        tasks = [asyncio.create_task(sender(p)) for p in plan]
+        tasks = [asyncio.create_task(sender(at, ns)) for at, ns in _group(plan)]
         await asyncio.sleep(end)
         obs.draining = True
         for _ in range(200):
@@ -801,19 +829,20 @@ def run_reference(case: dict) -> dict:
     out: dict[str, Any] = {}
 
     async def main(loop: VLoop) -> None:
-        st = Stack.build(case.get("store", "memory"), idle_timeout=None)
+        st = Stack.build(case.get("store", "memory"), idle_timeout=None, db_path=_fast_db_path(case))
         st.add_workflow("wf", lambda: build_workflow(case, obs))
         await st.start()
         hd = await st.start_run("wf", "h1", StartEvent())
 
-        async def sender(p: dict) -> None:
-            await asyncio.sleep(p["at"])
-            try:
-                await st.send("h1", Ext(n=p["n"]))
-            except Exception:
-                pass
+        async def sender(at: float, ns: list[int]) -> None:
+            await asyncio.sleep(at)
+            for n in ns:
+                try:
+                    await st.send("h1", Ext(n=n))
+                except Exception:
+                    pass
 
-        tasks = [asyncio.create_task(sender(p)) for p in plan]
+        tasks = [asyncio.create_task(sender(at, ns)) for at, ns in _group(plan)]
         await asyncio.sleep(end)
         for t in tasks:
             if not t.done():
